@@ -284,6 +284,7 @@ struct NcState {
     vars: BTreeMap<String, Slot>,     // locals holding a window slot value
     char_vars: BTreeSet<String>,      // bindings of the consumed symbolic character
     ret: Option<Slot>,
+    val: Option<Slot>,                // value of the expression evaluated last (for expression-valued arms)
 }
 
 /// three-valued match of a slot value against a normal-form pattern: Some(true/false), None = cannot tell
@@ -318,12 +319,15 @@ fn nc_exec(stmts: &[&syn::Stmt], mut st: NcState) -> Result<NcState, String> {
                 }
             }
             syn::Stmt::Expr(e, semi) => {
+                st.val = None;
                 st = nc_exec_expr(e, st)?;
                 if semi.is_none() {
                     // tail expression: the returned value
                     let t = sm::tsc(e);
                     if let Some(v) = st.vars.get(&t) {
                         st.ret = Some(v.clone());
+                    } else if let Some(v) = st.val.clone() {
+                        st.ret = Some(v);
                     }
                 }
             }
@@ -396,7 +400,23 @@ fn nc_exec_expr(e: &syn::Expr, mut st: NcState) -> Result<NcState, String> {
                 Err(format!("assignment to `{}`", l))
             }
         }
-        syn::Expr::Path(_) => Ok(st),
+        syn::Expr::Path(_) => {
+            // a slot value: `None`, or a local holding a window slot
+            if t == "None" {
+                st.val = Some(Slot::Empty);
+            } else if let Some(v) = st.vars.get(&t) {
+                st.val = Some(v.clone());
+            }
+            Ok(st)
+        }
+        syn::Expr::Call(_) if t == "Some('\\n')" => {
+            st.val = Some(Slot::Lf);
+            Ok(st)
+        }
+        syn::Expr::Call(_) if t == "Some('\\r')" => {
+            st.val = Some(Slot::Cr);
+            Ok(st)
+        }
         _ => Err(format!("unexpected expression `{}`", t.chars().take(80).collect::<String>())),
     }
 }
@@ -415,7 +435,7 @@ fn next_char_paths(m: &syn::ImplItemFn) -> Result<Vec<NcPath>, String> {
     let stmts: Vec<&syn::Stmt> = m.block.stmts.iter().collect();
     let mut out = vec![];
     for (class, w0, w1) in scenarios {
-        let st = NcState { w0, w1, slides: 0, incs: vec![], vars: BTreeMap::new(), char_vars: BTreeSet::new(), ret: None };
+        let st = NcState { w0, w1, slides: 0, incs: vec![], vars: BTreeMap::new(), char_vars: BTreeSet::new(), ret: None, val: None };
         let end = nc_exec(&stmts, st).map_err(|e| format!("scenario [{}]: {}", class, e))?;
         let mut consts = 0;
         let mut of_char = 0;
@@ -945,6 +965,32 @@ fn interp_stmt(s: &syn::Stmt, mut st: TState, res: &mut ArmResult, guard: &Optio
                 res.opaque_calls.push(init);
                 return vec![st];
             }
+            // `let tok = <decision whose paths end in a token value>;`: the paths are followed, each binds the local
+            if let (Some(i), [id]) = (l.init.as_ref(), ids.as_slice()) {
+                if matches!(&*i.expr, syn::Expr::Match(_) | syn::Expr::If(_) | syn::Expr::Block(_)) {
+                    let before = res.unrecognised.len();
+                    let outs = interp_expr(&i.expr, st.clone(), res, guard, false);
+                    let mut ok = res.unrecognised.len() == before;
+                    let mut bound = vec![];
+                    for mut o in outs {
+                        if o.ended || o.returned {
+                            bound.push(o);
+                            continue;
+                        }
+                        match o.subst.remove("\u{0}value") {
+                            Some(v) => {
+                                o.subst.insert(id.clone(), v);
+                                bound.push(o);
+                            }
+                            None => ok = false,
+                        }
+                    }
+                    if ok {
+                        return bound;
+                    }
+                    res.unrecognised.truncate(before);
+                }
+            }
             res.unrecognised.push(format!("let {}", init));
             vec![st]
         }
@@ -1197,6 +1243,11 @@ fn interp_expr(e: &syn::Expr, mut st: TState, res: &mut ArmResult, guard: &Optio
             vec![st]
         }
         syn::Expr::Assign(a) if sm::tsc(&a.left) == "self.at_begin_of_line" => vec![st],
+        // a token value at the end of a path of `let tok = match .. { .. }` (see interp_stmt)
+        syn::Expr::Path(_) if t.text.starts_with("Tok::") => {
+            st.subst.insert("\u{0}value".to_string(), t.text.clone());
+            vec![st]
+        }
         _ => {
             res.unrecognised.push(t.text);
             vec![st]
